@@ -6,6 +6,7 @@ import "pqsim/core"
 func All() []core.Prop {
 	return []core.Prop{
 		C01{},
+		C07{},
 		C08{},
 		C13{},
 		C14{},
